@@ -52,6 +52,12 @@ def parseSlow (s : String) : Option (Nat × Nat × Nat) :=
   | some [p, d, h] => if p < NPEER && d < 10000000 && h < 10000000 then some (p, d, h) else none
   | _ => none
 
+/-- `P.V`: datagram peer, kind of ACK (0 = empty, 1 = request code 0.01, 2 = invalid code class 1.00) -/
+def parseAck (s : String) : Option (Nat × Nat) :=
+  match (s.splitOn ".").mapM String.toNat? with
+  | some [p, v] => if p < NDGRAM && v < 3 then some (p, v) else none
+  | _ => none
+
 def parseEvent (tok : String) : Option Event :=
   match tok.toList with
   | [] => none
@@ -69,6 +75,8 @@ def parseEvent (tok : String) : Option Event :=
     else if c = 'f' then (parsePK arg).map fun (p, _) => .asyncFree (peerOf p)
     else if c = 'q' then (parseDgram arg).map fun p => .ping (peerOf p)
     else if c = 'k' then (parseDgram arg).map fun p => .rst (peerOf p)
+    else if c = 'u' then (if arg.contains '.' then none else (parseDgram arg).map fun p => .sendCon (peerOf p))
+    else if c = 'g' then (parseAck arg).map fun (p, v) => .ack (peerOf p) (v != 0)
     else if c = 'n' then (parseStream arg).map fun p => .connect (peerOf p)
     else if c = 'z' then (parseStream arg).map fun p => .peerClose (peerOf p)
     else if c = 'e' then (parseStream arg).map fun p => .restRx (peerOf p)
@@ -108,14 +116,19 @@ def showState (st : St) : String :=
   let rs := st.sessions.map fun s => toString s.idx ++ "=" ++ toString s.ref ++
     (if s.ref = st.holds s.sid then "" else "!holds" ++ toString (st.holds s.sid)) ++ "@" ++ toString s.last ++
     "#" ++ toString s.notes ++ (if s.pend = 0 then "" else "~" ++ toString s.pend) ++
-    (if st.partials.any (fun x => x.2 == s.sid) then "*" else "") ++ (if s.closed then "z" else "")
+    -- `^n`: n nodes in session->delayqueue (datagram sessions); marked if M's counter and M's node objects disagree
+    (if s.delayq = 0 then "" else "^" ++ toString s.delayq) ++
+    (if !s.peer.reliable && s.delayq ≠ (st.partials.filter fun x => x.2 == s.sid).length then "!dq" else "") ++
+    (if s.peer.reliable && st.partials.any (fun x => x.2 == s.sid) then "*" else "") ++ (if s.closed then "z" else "")
   "R" ++ (if rs.isEmpty then "-" else String.intercalate "," rs) ++
   " I" ++ toString (st.idleOn 0 COAP_PROTO_UDP).length ++ "/" ++ toString (st.idleOn 1 COAP_PROTO_UDP).length ++
   "/" ++ toString (st.idleOn 2 COAP_PROTO_TCP).length
 
 def showLive (st : St) : String :=
   "L" ++ toString st.sessions.length ++ "/" ++ toString (st.holders.filter fun h => isAnyObs h.kind).length ++ "/" ++
-  toString (st.holders.filter fun h => isNode h.kind).length ++ "/" ++
+  -- coap_queue_t objects alive: the queued messages (holders) and the nodes waiting in the sessions' delay queues
+  toString ((st.holders.filter fun h => isNode h.kind).length +
+    (st.partials.filter fun x => st.sessions.any fun s => s.sid == x.2 && !s.peer.reliable).length) ++ "/" ++
   toString (st.holders.filter fun h => isAsync h.kind).length ++ "/" ++
   toString (st.holders.filter fun h => isApp h.kind).length ++ " C" ++ toString st.now
 
